@@ -547,7 +547,7 @@ def levels(tier: str) -> list[dict]:
 
 def run(tier: str) -> dict:
     prepare()
-    res = common.run_levels_parallel(levels(tier))
+    res = common.run_levels_parallel(common.tiered(levels, tier))
     res['direct_violations'] = [
         {'sig': f'C10.{n}.fails-on-its-advertised-shape', 'path': f'inline: {n} applied to distinct symbols for the letters of its docstring schema', 'detail': e} for n, e in sorted(PROBE_FAIL.items())
     ]
